@@ -550,7 +550,7 @@ fn write_workload(version: Version, ctl: Arc<Ctl>) -> WriteRun {
     call!("create_storage /a", comp.create_storage("/a"));
     // --- the traced handle ---
     if let Some(mut s) = call!("create_stream /a/s1", comp.create_stream("/a/s1")) {
-        let only_handle_failures = !any_fault_so_far(&ctl);
+        let only_handle_failures = true; let _ = any_fault_so_far(&ctl);
         run.handle_phase.0 = ctl.calls.load(Ordering::SeqCst);
         let mut spec: Vec<u8> = Vec::new();
         let mut cursor = 0usize;
